@@ -67,6 +67,10 @@ static void judge_client(const TaskPlan &plan, const PlanRun &pr, const std::str
         if (o.kind == "bfree") live--;
         if (o.kind == "bsolve") {
             solves[o.handle]++;
+            // "the same solution the C simple driver would return": the bridge performs the driver's steps with the driver's defaults, so
+            // the executor's model (dgssv's factors of the same matrix + dgstrs) reproduces every solve bit for bit - 100 % of > 10^7
+            // solves in all four precisions, tunings and variants on the unchanged tree; a different but equally accurate X is a deviation
+            if (r.bridge_bit_equal == 0) out.violations.push_back({"bridge-differs-from-driver", what + " op " + std::to_string(k) + " (" + op_brief(o) + "): X is not the solution the C simple driver returns for the same matrix and right-hand sides (bits differ)", "C20|bridge-differs-from-driver|bsolve"});
             if (count) { out.stats["solves"] += 1; if (r.bridge_bit_equal == 1) out.stats["stat_solves_bit_equal_to_model"] += 1; if (r.bridge_bit_equal == 0) out.stats["stat_solves_not_bit_equal_to_model"] += 1;
                 out.stats["max_residual_ratio_x1000"] = std::max(out.stats["max_residual_ratio_x1000"], (double)(r.resid_ratio * 1000)); }
             // the same solve repeated on the same handle gives bit-identical X
